@@ -64,7 +64,7 @@ def check_model(case):
         fresh = O.build(spec, path, d + '_f') if path == 'file' else O.build(spec, path)
         base = W.evaluate(spec)
         ntk = []
-        for args in argsets:
+        for ai, args in enumerate(argsets):
             ovs = []
             for ov, a in zip(in_ovs, args):
                 o2 = list(ov)
@@ -72,6 +72,21 @@ def check_model(case):
                 ovs.append(o2)
             vals = [O.repo_value(spec, o) for o in ovs]
             expected = W.evaluate(spec, O.to_cells(spec, ovs))
+            if case.get('whatif') and ai > 0:
+                # a calculation with other supplied values on the model the function was compiled from, between two
+                # calls: the function is a value of its own and must not see it
+                prev = argsets[ai - 1]
+                povs = []
+                for ov, a in zip(in_ovs, prev):
+                    o2 = list(ov)
+                    o2[2] = a if ov[0] == 'cell' else _shape_like(spec, ov, a)
+                    povs.append(o2)
+                m.calculate(inputs={nid: O.repo_value(spec, o) for nid, o in zip(in_ids, povs)})
+                wins, _ = O.to_inputs(m, spec, case.get('whatif_ovs') or [])
+                if wins:
+                    m.calculate(inputs=wins)
+                    labels += ['whatif:' + l for l in O.ov_labels(spec, case['whatif_ovs'])]
+                labels.append('whatif-between-calls')
             try:
                 res = func(*vals)
             except sut.Watchdog:
@@ -231,7 +246,96 @@ def _root(t):
     return t[1] if t[0] in ('bin', 'fn') else t[0]
 
 
+def sparse_cases():
+    """Fixed shapes: rectangles most of whose cells are unpopulated (the repository assembles them from the *solution*),
+    read by two overlapping aggregates and a defined name; sequences that interleave compile / call / what-if calculations."""
+    vals = [[10.0, 20.0, 30.0, 40.0, 50.0, 60.0, 70.0, 80.0, 90.0], [1.5, -2.0, 3.0, 'zz', True, 6.0, 7.0, 0.0, 9.0]]
+    shapes = {
+        'col': dict(full=[0, 0, 1, 1, 6, 1], sub=[0, 0, 2, 1, 5, 1], pop=[(1, 1), (2, 1)]),
+        'row': dict(full=[0, 0, 1, 1, 1, 6], sub=[0, 0, 1, 2, 1, 5], pop=[(1, 1), (1, 2)]),
+        'block': dict(full=[0, 0, 1, 1, 3, 3], sub=[0, 0, 2, 1, 3, 3], pop=[(1, 1), (2, 2), (1, 3)]),
+    }
+    for sname, sh_ in shapes.items():
+        full, sub = sh_['full'], sh_['sub']
+        cells = [{'at': [0, 0, r, c], 'v': float(r * 3 + c)} for r, c in sh_['pop']]
+        cells.append({'at': [0, 0, 1, 8], 'v': 5.0})
+        cells.append({'at': [0, 0, 8, 1], 'f': ['bin', '+', ['fn', 'SUM', ['rng', full]], ['ref', [0, 0, 1, 8]]]})
+        cells.append({'at': [0, 0, 8, 2], 'f': ['fn', 'SUM', ['rng', sub]]})
+        cells.append({'at': [0, 0, 8, 3], 'f': ['bin', '*', ['fn', 'COUNT', ['name', 0]], ['num', 2.0]]})
+        spec = {'books': [{'name': 'b0.xlsx', 'sheets': ['S1']}], 'cells': cells, 'names': [{'name': 'TOTAL_IN', 'rect': full}]}
+        nr, nc = full[4] - full[2] + 1, full[5] - full[3] + 1
+
+        def rows(v):
+            return [[v[(i * nc + j) % len(v)] for j in range(nc)] for i in range(nr)]
+        outs = [[0, 0, 8, 1], [0, 0, 8, 2], [0, 0, 8, 3]]
+        x = ['cell', [0, 0, sh_['pop'][0][0], sh_['pop'][0][1]]]  # a populated cell inside the sparse rectangle
+        rect, name = ['rect', full], ['name', 0]
+        seqs = {
+            'compile-call-whatif-call': [['compile', 'f', [x], outs], ['call', 'f', [7.0]], ['calc', [rect + [rows(vals[0])]]], ['call', 'f', [7.0]], ['plain']],
+            'whatif-compile-call': [['calc', [rect + [rows(vals[0])]]], ['compile', 'f', [x], outs], ['call', 'f', [7.0]], ['call', 'f', [-1.0]]],
+            'whatif-name-compile-call': [['calc', [name + [rows(vals[1])]]], ['compile', 'f', [x], outs], ['call', 'f', [2.0]], ['plain']],
+            'whatif-compile-noinput': [['calc', [rect + [rows(vals[0])]]], ['compile', 'f', [], outs], ['call', 'f', []], ['plain']],
+            'rect-fn-calls-then-plain': [['compile', 'f', [rect], outs], ['call', 'f', [rows(vals[0])]], ['call', 'f', [rows(vals[1])]], ['plain'],
+                                         ['calc', [rect + [rows(vals[1])]]], ['call', 'f', [rows(vals[0])]]],
+            'name-fn-and-cell-fn': [['compile', 'f', [name], outs], ['compile', 'g', [x], outs], ['call', 'f', [rows(vals[0])]], ['call', 'g', [3.0]],
+                                    ['call', 'f', [rows(vals[1])]], ['call', 'g', [4.0]], ['plain']],
+            'two-whatifs-then-plain': [['calc', [rect + [rows(vals[0])]]], ['calc', [rect + [rows(vals[1])]]], ['plain'], ['calc', [x + [9.0]]]],
+        }
+        for qname, seq in seqs.items():
+            for path in ('dict', 'file'):
+                yield {'k': 'sparse', 'shape': sname, 'seq': qname, 'spec': spec, 'ops': seq, 'path': path}
+
+
+def check_sparse(case):
+    spec, path = case['spec'], case['path']
+    fails, funcs, n = [], {}, 0
+    tagbase = '%s|%s' % (case['shape'], case['seq'])
+
+    def compare(what, got_of, expected, keys):
+        for k in keys:
+            exp = expected.get(tuple(k))
+            got = got_of(tuple(k))
+            if not isinstance(exp, W.Unsure) and not X.same(got, 0.0 if isinstance(exp, sut.Blank) else exp, 1e-9):
+                fails.append(('sparse|%s|%s' % (tagbase, what), '%s: %s gives %r, reference %r' % (G.node_id(spec, tuple(k)), what, got, exp)))
+    with G.workdir() as d:
+        m = O.build(spec, path, d)
+        for op in case['ops']:
+            if op[0] == 'compile':
+                in_ids = [O.node_of(m, O.target_id(spec, t + [None])) for t in op[2]]
+                out_ids = [O.node_of(m, G.node_id(spec, tuple(k))) for k in op[3]]
+                if None in in_ids or None in out_ids:
+                    return R(labels=['skipped:node-missing'])
+                funcs[op[1]] = (m.compile(in_ids, out_ids), op[2], op[3])
+            elif op[0] == 'call':
+                f, ins, outs = funcs[op[1]]
+                ovs = [t + [a] for t, a in zip(ins, op[2])]
+                res = f(*[O.repo_value(spec, o) for o in ovs])
+                res = [res] if len(outs) == 1 else list(res)
+                got = {tuple(k): sut.one(rv) for k, rv in zip(outs, res)}
+                compare('compiled:' + op[1], got.get, W.evaluate(spec, O.to_cells(spec, ovs)), outs)
+                n += 1
+            elif op[0] in ('calc', 'plain'):
+                ovs = op[1] if op[0] == 'calc' else []
+                inputs, missing = O.to_inputs(m, spec, ovs)
+                if missing:
+                    return R(labels=['skipped:node-missing'])
+                sol = m.calculate(inputs=inputs) if inputs else m.calculate()
+                flat, _ = G.flatten(sol, supplied=set(inputs))
+                outs = [c['at'] for c in spec['cells'] if 'f' in c]
+                compare('calculate' if ovs else 'plain-calculate',
+                        lambda k: flat.get((G.sheet_id(spec, k[0], k[1]), k[2], k[3]), sut.BLANK), W.evaluate(spec, O.to_cells(spec, ovs)), outs)
+                n += 1
+    seen, out = set(), []
+    for s_, d_ in fails:
+        if s_ not in seen:
+            seen.add(s_)
+            out.append((s_, d_))
+    return R(out, nt=True, n=n, labels=['sparse:' + case['shape'], 'sparse-seq:' + case['seq'], 'path:' + path])
+
+
 def check_case(case):
+    if case['k'] == 'sparse':
+        return check_sparse(case)
     if case['k'] == 'model':
         return check_model(case)
     if case['k'] == 'formula':
@@ -264,7 +368,8 @@ def _model_cases(draw, tier):
     edit = None
     if draw(st.booleans()):
         edit = [draw(st.integers(0, 30)), draw(st.sampled_from([11.0, -7.0, 2.5, 'edited', True, 0.0]))]
-    return {'k': 'model', 'spec': spec, 'ins': ins, 'outs': [list(k) for k in outs], 'args': args, 'path': path, 'edit': edit}
+    return {'k': 'model', 'spec': spec, 'ins': ins, 'outs': [list(k) for k in outs], 'args': args, 'path': path, 'edit': edit, 'whatif': draw(st.booleans()),
+            'whatif_ovs': draw(O.overrides(spec, max_n=2, kinds=('rect', 'rect', 'name', 'cell')))}
 
 
 def _models(tier):
@@ -309,4 +414,5 @@ def parts(tier, seed):
     return [
         ('hyp', 'models', 1200 if q else 12000, 10),
         ('hyp', 'formulas', 4000 if q else 60000),
+        ('enum', 'sparse-range-histories', list(sparse_cases()), 3, False),
     ]
